@@ -36,6 +36,15 @@ def files(variant="main"):
     thing.oneof_decl.add(name="_opt")
     thing.field.append(G.F("a", 7, T.TYPE_STRING, oneof_index=0))
     thing.field.append(G.F("b", 8, T.TYPE_INT32, oneof_index=0))
+    # a field of the top-level message whose type is nested TWO levels below that same message (and an enum likewise), and a singleton resource
+    layer = G.add_message(thing, "Layer")
+    G.add_message(layer, "Stroke", [G.F("w", 1, T.TYPE_INT32)])
+    fin = layer.enum_type.add(name="Finish")
+    fin.value.add(name="FINISH_UNSPECIFIED", number=0)
+    thing.field.append(G.F("outline", 20, T.TYPE_MESSAGE, type_name=P + ".Thing.Layer.Stroke"))
+    thing.field.append(G.F("strokes", 21, T.TYPE_MESSAGE, label=G.REPEATED, type_name=P + ".Thing.Layer.Stroke"))
+    thing.field.append(G.F("finish", 22, T.TYPE_ENUM, type_name=P + ".Thing.Layer.Finish"))
+    G.add_message(fd, "Policy", [G.F("name", 1, T.TYPE_STRING)], resource=("lab.example.com/Policy", "labPolicy"))
     # a nested message whose field is named like a sibling module this file imports (`extra`), followed by a field that needs that module,
     # and one named `proto` (the alias of the proto-plus import): both names occur nowhere at the top level of the file
     nested = G.add_message(thing, "Part", [G.F("p", 1, T.TYPE_STRING), G.F("extra", 2, T.TYPE_MESSAGE, type_name="." + subpkg + ".Extra"),
@@ -46,7 +55,8 @@ def files(variant="main"):
     e.field.append(G.F("key", 1, T.TYPE_STRING))
     e.field.append(G.F("value", 2, T.TYPE_MESSAGE, type_name=P + ".Thing.Part"))
     thing.field.append(G.F("labels", 10, T.TYPE_MESSAGE, label=G.REPEATED, type_name=P + ".Thing.LabelsEntry"))
-    G.add_message(fd, "GetThingRequest", [G.F("name", 1, T.TYPE_STRING, required=True, resource_ref="lab.example.com/Thing"), G.F("request_id", 2, T.TYPE_STRING, uuid4=True)])
+    G.add_message(fd, "GetThingRequest", [G.F("name", 1, T.TYPE_STRING, required=True, resource_ref="lab.example.com/Thing"), G.F("request_id", 2, T.TYPE_STRING, uuid4=True),
+                                          G.F("policy", 3, T.TYPE_STRING, resource_ref="lab.example.com/Policy")])
     G.add_message(fd, "ListThingsRequest", [G.F("parent", 1, T.TYPE_STRING), G.F("page_size", 2, T.TYPE_INT32), G.F("page_token", 3, T.TYPE_STRING)])
     G.add_message(fd, "ListThingsResponse", [G.F("things", 1, T.TYPE_MESSAGE, label=G.REPEATED, type_name=P + ".Thing"), G.F("next_page_token", 2, T.TYPE_STRING)])
     G.add_message(fd, "Meta", [G.F("pct", 1, T.TYPE_INT32)])
